@@ -68,6 +68,56 @@ def analyzeAccumulator (slices : List (List Rat)) (bias : List Rat)
     if m ≤ 0 then .overflowError else .ok (ceilLog2Rat m)
   else .indexError
 
+/-! ### padded layers and the range as stated (strengthening round, seed C18-10)
+
+`(x_max > 0) * x_max` and `(x_min < 0) * x_min` CLAMP the stated range so that it contains zero
+(`posPart xmax`, `negPart xmin` above).  The clamp is what makes the size valid for layers with
+`padding="same"` / `"causal"`: a border output position multiplies some taps by padded zeros, i.e.
+by a value OUTSIDE a stated range that excludes zero.  `PaddedPatch` is the input patch of such a
+position; `estN1Endpoint` / `estN0Endpoint` / `chanBoundEndpoint` are NOT the code: they are the
+formula with the interval endpoints used as stated (exact for dense / "valid" layers, see
+`Props.C18.C18_estimator_endpoint_*`), kept here so that the theorems can say why the code's
+clamp may not be dropped. -/
+
+/-- the patch one output position of a (possibly padded) layer reads: every tap sits on a real
+    input element inside the stated range, or on a padded zero -/
+def PaddedPatch (xs : List Rat) (xmin xmax : Rat) : Prop :=
+  ∀ x ∈ xs, (xmin ≤ x ∧ x ≤ xmax) ∨ x = 0
+
+def estN1Endpoint (ws : List Rat) (b xmin xmax : Rat) : Rat :=
+  estNpp ws * xmax + estNnn ws * xmin + b
+def estN0Endpoint (ws : List Rat) (b xmin xmax : Rat) : Rat :=
+  - (estNnn ws * xmax + estNpp ws * xmin + b)
+def chanBoundEndpoint (ws : List Rat) (b xmin xmax : Rat) : Rat :=
+  let n1 := estN1Endpoint ws b xmin xmax
+  let n0 := estN0Endpoint ws b xmin xmax
+  if n0 < n1 then n1 else n0
+
+/-! ### `analyze_accumulator_from_sample(mode="conservative")`: the stated range is derived
+
+      values = eval_inputs.predict(x_sample)          # inputs of the quantized layers
+      for name, value in zip(layer_names, values):
+        x_dict[name] = (np.amin(value), np.amax(value))
+      return analyze_accumulator(model, x_dict, verbose)
+
+  With two or more quantized layers `predict` returns a LIST of arrays (one per layer, the whole
+  batch each).  With exactly ONE quantized layer it returns a single array and `zip` iterates over
+  its first axis: `value` is the FIRST SAMPLE of the batch, the other samples never enter the range
+  (finding C18-from-sample-single-layer). -/
+
+def listMin (l : List Rat) : Rat := l.foldl (fun a b => if b < a then b else a) (l.headD 0)
+
+/-- the range `(np.amin, np.amax)` the function derives for one layer; `samples[s]` = the layer's
+    input for sample `s`, flattened; `single` = the model has exactly one quantized layer -/
+def fromSampleRange (single : Bool) (samples : List (List Rat)) : Rat × Rat :=
+  let seen := if single then samples.headD [] else samples.flatten
+  (listMin seen, listMax seen)
+
+def analyzeFromSample (single : Bool) (samples : List (List Rat)) (slices : List (List Rat))
+    (bias : List Rat) : EstResult :=
+  let r := fromSampleRange single samples
+  analyzeAccumulator slices bias r.1 r.2
+
 /-- dot product of a weight slice with an input patch -/
 def dot : List Rat → List Rat → Rat
   | w :: ws, x :: xs => w * x + dot ws xs
